@@ -40,9 +40,25 @@ type IterVal struct {
 // The snapshot of storage.Find(prefix) on store S is described by three global functions of (S, prefix):
 // cnt = number of keys with the prefix, skey(j) = the j-th such key in ascending bytewise order,
 // sidx(k) = the position of key k. Contracts can name them (cnt, skey, sidx).
-func (it *IterVal) lenT() *sx.T        { return sx.App("cnt", it.Store, it.Prefix) }
-func (it *IterVal) keyT(j *sx.T) *sx.T { return sx.App("skey", it.Store, it.Prefix, j) }
-func (it *IterVal) idxT(k *sx.T) *sx.T { return sx.App("sidx", it.Store, it.Prefix, k) }
+// A Backwards iterator walks the same sequence from its end: its j-th key is skey(cnt-1-j).
+func (it *IterVal) lenT() *sx.T { return sx.App("cnt", it.Store, it.Prefix) }
+func (it *IterVal) keyT(j *sx.T) *sx.T {
+	if it.Opts&optBackwards != 0 {
+		j = sx.App("-", sx.App("-", it.lenT(), sx.Int(1)), j)
+	}
+	return sx.App("skey", it.Store, it.Prefix, j)
+}
+func (it *IterVal) idxT(k *sx.T) *sx.T {
+	i := sx.App("sidx", it.Store, it.Prefix, k)
+	if it.Opts&optBackwards != 0 {
+		return sx.App("-", sx.App("-", it.lenT(), sx.Int(1)), i)
+	}
+	return i
+}
+
+// ascending accessors (what the snapshot axioms are stated over)
+func (it *IterVal) akeyT(j *sx.T) *sx.T { return sx.App("skey", it.Store, it.Prefix, j) }
+func (it *IterVal) aidxT(k *sx.T) *sx.T { return sx.App("sidx", it.Store, it.Prefix, k) }
 
 type loopCtx struct {
 	label      string
@@ -146,7 +162,15 @@ type Exit struct {
 	Msg   string
 }
 
+// writeRec is one storage write seen by a dry run of a loop body (frame inference).
+type writeRec struct {
+	key  *sx.T
+	defs []*sx.T
+}
+
 type Engine struct {
+	writeLog   *[]writeRec // non-nil during a dry run
+	dry        int
 	Pkgs       map[string]*packages.Package // by package path
 	funcs      map[*types.Func]*ast.FuncDecl
 	fpkg       map[*types.Func]*packages.Package
@@ -161,6 +185,7 @@ type Engine struct {
 	extraFn    map[string]string // uninterpreted function declarations
 	nfaults    int
 	nsnaps     int
+	Go64       bool // dialect go64: fixed-width integers, overflow-freedom is an obligation
 	Sweep      bool // zero-annotation mode: loops are cut with the syntactic frame only
 	ufSig      map[string]string
 	unmodelled map[string]int
@@ -261,6 +286,10 @@ func (e *Engine) typeOf(t types.Type) spec.Type {
 		name := ""
 		if n, ok := t.(*types.Named); ok {
 			name = n.Obj().Name()
+			switch name { // names of SMT sorts used by the prelude
+			case "Int", "Bool", "String", "Real", "Array", "Store", "Opt", "NB", "Any", "MapV", "GhostEv", "RegLan", "Seq":
+				name = n.Obj().Pkg().Name() + "_" + name
+			}
 			if prev, ok := e.stypes[name]; ok && !types.Identical(prev, t) {
 				name = n.Obj().Pkg().Name() + "_" + name
 			}
@@ -274,6 +303,13 @@ func (e *Engine) typeOf(t types.Type) spec.Type {
 		if _, ok := e.Structs[name]; !ok {
 			e.Structs[name] = nil // reserve (recursion guard)
 			e.stypes[name] = t
+			done := false
+			defer func() {
+				if !done { // a field type outside the subset: forget the partial registration
+					delete(e.Structs, name)
+					delete(e.stypes, name)
+				}
+			}()
 			var fs []spec.Field
 			for i := 0; i < u.NumFields(); i++ {
 				fn := u.Field(i).Name()
@@ -284,6 +320,7 @@ func (e *Engine) typeOf(t types.Type) spec.Type {
 			}
 			e.Structs[name] = fs
 			e.order = append(e.order, name)
+			done = true
 		}
 		return spec.Type{K: spec.KStruct, Name: name}
 	case *types.Interface:
@@ -386,6 +423,22 @@ func (e *Engine) Prelude(sp *spec.File) (decls []string, quants []smt.Quant) {
 			decls = append(decls, fmt.Sprintf("(declare-fun fold_%s (Store) Int)", n))
 		}
 	}
+	if _, ok := e.extraFn["uf:native_std_StringSplit"]; ok {
+		// std.StringSplit(s, sep): at least one fragment; a single fragment is s itself and holds no separator;
+		// otherwise s starts with the first fragment followed by the separator, which the first fragment does not hold.
+		// (Axioms over an uninterpreted function, true of the real split; not over a datatype sort.)
+		sp := "(native_std_StringSplit s sep)"
+		first := "(bv (select (L_NB_arr " + sp + ") 0))"
+		vars := []smt.Var{{Name: "s", Sort: "String"}, {Name: "sep", Sort: "String"}}
+		pat := [][]*sx.T{{sx.MustParse1(sp)}}
+		for i, body := range []string{
+			"(and (>= (L_NB_len " + sp + ") 1) (not (L_NB_null " + sp + ")))",
+			"(=> (and (>= (str.len sep) 1) (= (L_NB_len " + sp + ") 1)) (and (= " + first + " s) (not (str.contains s sep))))",
+			"(=> (and (>= (str.len sep) 1) (> (L_NB_len " + sp + ") 1)) (and (str.prefixof (str.++ " + first + " sep) s) (not (str.contains " + first + " sep))))",
+		} {
+			quants = append(quants, smt.Quant{Name: fmt.Sprintf("split%d", i), Vars: vars, Body: sx.MustParse1(body), Pats: pat})
+		}
+	}
 	for _, c := range e.consts {
 		if strings.HasPrefix(c.Name, "notifs!") || strings.HasPrefix(c.Name, "xcalls!") {
 			e.extraFn["logat:"+c.Name] = fmt.Sprintf("(declare-fun at_%s (Int) GhostEv)", c.Name)
@@ -475,6 +528,9 @@ func (e *Engine) name(st *State, v Val) Val {
 }
 
 func (e *Engine) setStore(fr *frame, st *State, ns *sx.T, key *sx.T) {
+	if e.writeLog != nil {
+		*e.writeLog = append(*e.writeLog, writeRec{key: key, defs: st.defs})
+	}
 	old := st.store
 	n := e.sym("st", "Store")
 	st.defs = append(st.defs, sx.App("=", n, ns))
@@ -677,6 +733,17 @@ func (e *Engine) eval(fr *frame, st *State, x ast.Expr, k cont) {
 			e.eval(fr, st, x.X, func(st *State, v Val) {
 				ft := e.typeOf(sel.Type())
 				t := sx.App(v.Ty.Name+"_"+x.Sel.Name, v.T)
+				if v.T.IsAtom() { // a named constructor application: project it directly
+					for i := len(st.defs) - 1; i >= 0; i-- {
+						d := st.defs[i]
+						if d.L[1].IsAtom() && d.L[1].A == v.T.A {
+							if d.L[2].Head() == "mk"+v.Ty.Name {
+								v.T = d.L[2]
+							}
+							break
+						}
+					}
+				}
 				if v.T.Head() == "mk"+v.Ty.Name {
 					for i, f := range e.Structs[v.Ty.Name] {
 						if f.Name == x.Sel.Name {
